@@ -88,7 +88,8 @@ class Stream(Engine):
                 'junk': gen.rhex(rng, rng.choice([1, 1, 2, 4, 5, 80, rng.randint(1, 300)])),
                 'sizes': [rng.choice([1, 1, 2, 3, 4, 5, 7, 32, 33, 100, 4096]) for _ in range(rng.randint(1, 5))],
                 'bufsize': rng.choice([1, 2, 3, 8, 64, 8192]),
-                'mid_offsets': [rng.randrange(1 << 30) for _ in range(6)]}})
+                'mid_offsets': [rng.randrange(1 << 30) for _ in range(6)],
+                'poison': rng.choice([None, None, None, 'txout-value', 'tx-version', 'txin-sequence', 'header-time', 'block-bits'])}})
         return {'engine': self.name, 'property': [prop], 'config': {}, 'steps': steps}
 
     def execute(self, plan, ctx):
@@ -152,6 +153,29 @@ class Stream(Engine):
             eq = lambda x, y: ({k: v for k, v in x.items() if k != 'txs'} == {k: v for k, v in y.items() if k != 'txs'} and
                                len(x['txs']) == len(y['txs']) and all(RW.tx_equal(p, q) for p, q in zip(x['txs'], y['txs'])))
         det = dict(kind=kind, size=len(want))
+        # ---- a failing serialisation first (a field outside its wire range raises part-way through):
+        #      whatever it leaves behind must not leak into the next, valid, serialisation
+        if a.get('poison'):
+            C = self.C
+            S = conv._m()[1]
+            how = a['poison']
+            try:
+                if how == 'txout-value':
+                    bad = C.CMutableTransaction([C.CMutableTxIn(C.CMutableOutPoint(b'\x11' * 32, 1), S.CScript(b'\x51'))], [C.CMutableTxOut(2 ** 63, S.CScript(b''))])
+                elif how == 'tx-version':
+                    bad = C.CMutableTransaction([C.CMutableTxIn(C.CMutableOutPoint(b'\x11' * 32, 1))], [C.CMutableTxOut(5, S.CScript(b'\x51'))], 0, 2 ** 31)
+                elif how == 'txin-sequence':
+                    ti = C.CMutableTxIn(C.CMutableOutPoint(b'\x22' * 32, 0))
+                    ti.nSequence = 2 ** 32
+                    bad = C.CMutableTransaction([ti], [C.CMutableTxOut(5, S.CScript(b'\x51'))])
+                elif how == 'header-time':
+                    bad = C.CBlockHeader(2, b'\x00' * 32, b'\x00' * 32, 2 ** 32, 0, 0)
+                else:
+                    bad = C.CBlock(2, b'\x00' * 32, b'\x00' * 32, 0, -1, 0, [C.CTransaction([C.CTxIn(C.COutPoint(b'\x33' * 32, 0))], [C.CTxOut(1, S.CScript(b''))])])
+                bad.serialize()
+                ctx.probe('poison-did-not-raise')
+            except Exception:
+                ctx.fault('failed-serialisation-before')
         # ---- carried: exact bytes
         try:
             obj = build()
